@@ -266,8 +266,17 @@ class World:
                 self.line_point(frame.f_lineno)
             return local
 
+        match = filename if callable(filename) else (lambda fn: fn == filename)
+        cache = {}
+
         def tracer(frame, event, arg):
-            if event == "call" and frame.f_code.co_filename == filename:
+            if event != "call":
+                return None
+            fn = frame.f_code.co_filename
+            hit = cache.get(fn)
+            if hit is None:
+                hit = cache[fn] = bool(match(fn))
+            if hit:
                 if opcodes_for is not None and opcodes_for(self.current):
                     frame.f_trace_opcodes = True
                 return local
